@@ -14,6 +14,9 @@
 (*   SetMode(t)      train() / eval()                                       *)
 (*   Forward re-samples theta_alpha from the coefficients; Summary is an    *)
 (*   observer since plinio commit ba220ec (it used to re-sample as well)   *)
+(*   Fork            obj := copy.deepcopy(obj); the history goes on with the *)
+(*                   copy while OSetAlpha / OSetHard / OForward perturb the  *)
+(*                   original (two objects that must be independent)        *)
 (* export() and cost are observers: they are derived operators evaluated in *)
 (* EVERY reachable state by the invariants below (and executed on the real  *)
 (* library in every reachable state by the harness).                        *)
@@ -31,11 +34,17 @@ CONSTANTS Impl, ExcludeKF,
           NameFamily,  \* "plain" | "collide": block names drawn from BlockNamePool, fixed layers named so
                        \* that they extend / are extended by / share leaf names with the block names
           NameImpl,    \* naming rule of the top-level cost loop that is checked (see SNLife!Inside)
+          SampleImpl,  \* "ref" | "nosample1" (defective: one-branch blocks never sample; expected to fail)
+          ForkImpl,    \* "ref": a deep copy is independent of the original | "shared" (defective: the copy's
+                       \* sampler is still bound to the original; expected to fail)
           Acts,        \* enabled actions
           D            \* theta is explored in units of 1/D
 
-VARIABLES net, win, hard, training, cls
-vars == <<net, win, hard, training, cls>>
+VARIABLES net, win, hard, training, cls,
+          orig         \* [on |-> FALSE] until Fork; then the state [win, hard, cls] of the ORIGINAL object, while
+                       \* win / hard / training / cls go on describing the deep copy
+vars == <<net, win, hard, training, cls, orig>>
+copyvars == <<net, win, hard, training, cls>>
 
 KindSeqs   == UNION {[1..n -> KindSet] : n \in NBrSet}
 BlockSkels == {s \in {[kinds |-> ks, uses |-> u, pool |-> p] : ks \in KindSeqs, u \in UseSet, p \in PoolSet} :
@@ -54,13 +63,17 @@ NetSkelsOK == {s \in NetSkels : s.naming = <<>> \/ Len(s.naming) = Len(s.blocks)
 MaxW == MaxOf(NBrSet \cup {BigN}) - 1
 N == WithCT(net)                       \* the network with its (abstract) cost tables
 
+NBranches(b) == Len(net.blocks[b].kinds)
+Sample(h, t, w) == [b \in 1..Len(net.blocks) |-> SampleClassI(SampleImpl, NBranches(b), net.gumbel, h, t, w[b])]
+
 Init ==
     /\ net \in NetSkelsOK
     /\ win = [b \in 1..Len(net.blocks) |-> 0]          \* uniform coefficients: torch.argmax gives 0
     /\ hard = net.hard0
     /\ training = TRUE                                 \* the harness calls train() after construction
     \* SuperNet.__init__ runs one forward pass in eval mode (shape propagation)
-    /\ cls = [b \in 1..Len(net.blocks) |-> SampleClass(net.gumbel, net.hard0, FALSE, 0)]
+    /\ cls = Sample(net.hard0, FALSE, win)
+    /\ orig = [on |-> FALSE]
 
 SetAlpha(b, w) ==
     /\ "SetAlpha" \in Acts
@@ -68,24 +81,52 @@ SetAlpha(b, w) ==
     /\ w \in Br(net.blocks[b])
     /\ w # win[b]
     /\ win' = [win EXCEPT ![b] = w]
-    /\ UNCHANGED <<net, hard, training, cls>>
+    /\ UNCHANGED <<net, hard, training, cls, orig>>
 
 SetHard(h) ==
     /\ "SetHard" \in Acts
     /\ h # hard
     /\ hard' = h
-    /\ UNCHANGED <<net, win, training, cls>>
+    /\ UNCHANGED <<net, win, training, cls, orig>>
 
 SetMode(t) ==
     /\ "SetMode" \in Acts
     /\ t # training
     /\ training' = t
-    /\ UNCHANGED <<net, win, hard, cls>>
+    /\ UNCHANGED <<net, win, hard, cls, orig>>
 
-Resample == cls' = [b \in 1..Len(net.blocks) |-> SampleClass(net.gumbel, hard, training, win[b])]
+\* forward of the object the history follows (the copy after a Fork).  ForkImpl = "shared": the copy's
+\* sampler is a closure over the ORIGINAL combiner - it re-samples the original's theta from the original's
+\* coefficients / options / mode and leaves the copy's stored sample as it was.
+Forward ==
+    /\ "Forward" \in Acts
+    /\ IF ForkImpl = "shared" /\ orig.on
+       THEN cls' = cls /\ orig' = [orig EXCEPT !.cls = Sample(orig.hard, TRUE, orig.win)]
+       ELSE cls' = Sample(hard, training, win) /\ orig' = orig
+    /\ UNCHANGED <<net, win, hard, training>>
+Summary == "Summary" \in Acts /\ UNCHANGED vars
 
-Forward == "Forward" \in Acts /\ Resample /\ UNCHANGED <<net, win, hard, training>>
-Summary == "Summary" \in Acts /\ UNCHANGED <<net, win, hard, training, cls>>
+\* obj := deepcopy(obj): the copy starts in the state of the original
+Fork ==
+    /\ "Fork" \in Acts
+    /\ ~orig.on
+    /\ orig' = [on |-> TRUE, win |-> win, hard |-> hard, cls |-> cls]
+    /\ UNCHANGED copyvars
+
+\* perturbations of the ORIGINAL after the fork (it stays in training mode)
+OSetAlpha(b, w) ==
+    /\ "Fork" \in Acts /\ orig.on
+    /\ b <= Len(net.blocks) /\ w \in Br(net.blocks[b]) /\ w # orig.win[b]
+    /\ orig' = [orig EXCEPT !.win[b] = w]
+    /\ UNCHANGED copyvars
+OSetHard(h) ==
+    /\ "Fork" \in Acts /\ orig.on /\ h # orig.hard
+    /\ orig' = [orig EXCEPT !.hard = h]
+    /\ UNCHANGED copyvars
+OForward ==
+    /\ "Fork" \in Acts /\ orig.on
+    /\ orig' = [orig EXCEPT !.cls = Sample(orig.hard, TRUE, orig.win)]
+    /\ UNCHANGED copyvars
 
 Next ==
     \/ \E b \in 1..MaxBlocks, w \in 0..MaxW : SetAlpha(b, w)    \* constant bounds: one labelled action per (b, w)
@@ -93,6 +134,10 @@ Next ==
     \/ \E t \in BOOLEAN : SetMode(t)
     \/ Forward
     \/ Summary
+    \/ Fork
+    \/ \E b \in 1..MaxBlocks, w \in 0..MaxW : OSetAlpha(b, w)
+    \/ \E h \in BOOLEAN : OSetHard(h)
+    \/ OForward
 
 Spec == Init /\ [][Next]_vars
 
@@ -109,7 +154,8 @@ CurThetas(n) == Prod([b \in 1..NB(n) |-> ThetaSet(cls[b], NBr(n.blocks[b]), D)],
 TypeOK ==
     LET n == N IN
     /\ hard \in BOOLEAN /\ training \in BOOLEAN
-    /\ \A b \in 1..NB(n) : win[b] \in Br(n.blocks[b]) /\ cls[b].c \in {"hot", "hotany", "soft", "prob"}
+    /\ \A b \in 1..NB(n) : win[b] \in Br(n.blocks[b]) /\ cls[b].c \in {"hot", "hotany", "soft", "prob", "raw"}
+    /\ orig.on => \A b \in 1..NB(n) : orig.win[b] \in Br(n.blocks[b])
 
 \* ---- C03
 C03_ExportSucceeds == LET n == N IN GuardExp(n) => ~ExportFails(Export(Impl, n, win))
@@ -163,4 +209,11 @@ F23SigExact ==
                         BranchCost("asis", "ops", n.blocks[b], i) # BranchCost("ref", "ops", n.blocks[b], i)
     /\ \A m \in Metrics : \A th \in ths :
           Mix("asis", m, n, th, FALSE, D) # Mix("ref", m, n, th, FALSE, D) => F23Sig(m, n, th)
+
+\* ---- two objects: a deep copy is independent of the original (action properties)
+\* a forward pass of the followed object stores a sample of ITS OWN coefficients / options / mode
+ForwardSamplesOwnState == [][Forward => cls' = Sample(hard, training, win)]_vars
+\* nothing done to the original changes what the copy stores
+ForkIsolation ==
+    [][(orig.on /\ orig' # orig /\ ~Forward) => UNCHANGED copyvars]_vars
 =============================================================================
